@@ -31,6 +31,121 @@ func runC08(c *fw.Ctx) {
 		t := spec.GenTree(r, spec.Opts{MaxDepth: r.Range(1, 6), MaxWidth: r.Range(1, 5), SafeKeys: r.Bool(), ScalarBias: r.Range(3, 7), Wide: true})
 		c08Case(c, r, t, muts)
 	})
+	c.Cases("several-clones", c.N(400, 100000), false, func(i int, r *rng.R) { c08Several(c, r) })
+}
+
+// c08Several: a source and two to four clones of it (clones of clones among them) are written to in turn, at the top
+// level and inside nested containers, now and then emptied and refilled. After every write every other holder prints
+// what it printed before: a clone shares nothing with anybody, however many clones there are and whatever happened to
+// the others.
+func c08Several(c *fw.Ctx, r *rng.R) {
+	t := spec.GenTree(r, spec.Opts{MaxDepth: r.Range(1, 3), MaxWidth: r.Range(1, 4), SafeKeys: true, ScalarBias: r.Range(3, 8)})
+	var trace []string
+	in := func() string { return describeTree(t) + "\n  " + strings.Join(trace, "\n  ") }
+	guard(c, in, func() {
+		holders := []any{drive.Build(r, t)}
+		names := []string{"src"}
+		for k := r.Range(2, 4); k > 0; k-- {
+			from := r.Intn(len(holders))
+			var cl any
+			switch x := holders[from].(type) {
+			case at.List:
+				cl = x.Clone()
+			case at.Object:
+				cl = x.Clone()
+			}
+			holders = append(holders, cl)
+			names = append(names, fmt.Sprintf("c%d", len(holders)-1))
+			trace = append(trace, fmt.Sprintf("%s = %s.Clone()", names[len(names)-1], names[from]))
+		}
+		canon := make([]string, len(holders))
+		for j, h := range holders {
+			canon[j] = stringCanon(h)
+		}
+		for step := r.Range(4, 12); step > 0; step-- {
+			j := r.Intn(len(holders))
+			// the container written to: the holder itself or a container nested in it
+			var target any = holders[j]
+			where := names[j]
+			if snap, err := drive.Walk(holders[j]); err == nil && r.Chance(1, 3) {
+				if node, path, ok := pickContainer(r, snap); ok && node != nil {
+					target, where = node.Id, names[j]+" at "+rootName(path)
+				}
+			}
+			desc := ""
+			drive.Protect(func() {
+				switch x := target.(type) {
+				case at.List:
+					n := x.Count()
+					switch op := r.Intn(8); {
+					case op == 0:
+						x.Add(step)
+						desc = "Add"
+					case op == 1 && n > 0:
+						x.Replace(r.Intn(n), "w")
+						desc = "Replace"
+					case op == 2 && n > 0:
+						x.Delete(r.Intn(n))
+						desc = "Delete"
+					case op == 3 && n > 1:
+						x.Reverse()
+						desc = "Reverse"
+					case op == 4:
+						x.SetTF(fmt.Sprintf("#%d", r.Intn(n+2)), step)
+						desc = "SetTF"
+					case op == 5:
+						x.Clear()
+						desc = "Clear"
+					case op == 6:
+						x.Clear().Add(step, "refilled")
+						desc = "Clear, Add"
+					case n > 0:
+						x.Pop()
+						desc = "Pop"
+					}
+				case at.Object:
+					keys := x.Keys().StringSlice()
+					switch op := r.Intn(7); {
+					case op == 0:
+						x.Set(fmt.Sprintf("w%d", step), step)
+						desc = "Set(new key)"
+					case op == 1 && len(keys) > 0:
+						x.Set(keys[r.Intn(len(keys))], "w")
+						desc = "Set(existing key)"
+					case op == 2 && len(keys) > 0:
+						x.Unset(keys[r.Intn(len(keys))])
+						desc = "Unset"
+					case op == 3:
+						x.Clear()
+						desc = "Clear"
+					case op == 4:
+						x.Clear().Set("refilled", step)
+						desc = "Clear, Set"
+					case op == 5:
+						x.Clear().Clear()
+						desc = "Clear twice"
+					default:
+						x.SetTF(fmt.Sprintf(".t%d#1", step), step)
+						desc = "SetTF(new key, padded list)"
+					}
+				}
+			})
+			if desc == "" {
+				continue
+			}
+			trace = append(trace, where+": "+desc)
+			c.Count("writes_among_several_clones")
+			for k, h := range holders {
+				now := stringCanon(h)
+				if k != j && now != canon[k] {
+					c.Violate("clone-mutation-leaks", in(), fmt.Sprintf("%s still prints %s", names[k], spec.Trunc(canon[k], 400)), spec.Trunc(now, 400))
+					return
+				}
+				canon[k] = now
+			}
+		}
+		c.Distinct(in())
+	})
 }
 
 func sharedContainers(a, b *drive.Node) string {
